@@ -15,7 +15,7 @@ import sys
 from collections import defaultdict
 from .mir import Body, op_place, op_const, op_local, callee_of, callee_name
 
-sys.setrecursionlimit(20000)
+sys.setrecursionlimit(200000)
 
 UNKNOWN = ("unknown",)
 
@@ -30,6 +30,8 @@ IDENTITY = re.compile(
 # wrappers whose constructor/variant structure is transparent for paths
 TRANSPARENT_VARIANTS = {"Some", "Ok", "Continue"}
 HIGHER_ORDER = re.compile(r"::(map|filter_map|and_then|for_each|flat_map|map_or|map_or_else|unwrap_or_else|or_else|filter|find_map|fold|try_fold|try_for_each|then|map_while|inspect|sort_by_key|sort_by|retain|any|all|find|position)$")
+COMPARE = re.compile(r"cmp::(PartialEq|PartialOrd|Ord|Eq)(<.*>)?>::(eq|ne|lt|le|gt|ge|cmp|partial_cmp|max|min)$"
+                     r"|::(contains|contains_key|is_empty|is_some|is_none|is_ok|is_err|starts_with|ends_with|is_zero|is_sign_negative|is_sign_positive|is_nan|eq_ignore_ascii_case|is_char_boundary|is_ascii\w*|is_alphabetic|is_numeric|is_whitespace|is_alphanumeric)$")
 INDEX = re.compile(r"ops::Index(Mut)?<.*>>::index(_mut)?$|::index$|::index_mut$|::get_unchecked(_mut)?$")
 
 
@@ -71,6 +73,11 @@ def strip_transparent(path):
                 i += 2
             else:
                 i += 1
+            continue
+        if e.startswith("[") and out and out[-1].startswith("["):
+            # nested index paths collapse (buffers of buffers are not distinguished)
+            out[-1] = "[*]"
+            i += 1
             continue
         out.append(e)
         i += 1
@@ -135,12 +142,18 @@ class FnInfo:
 
 
 class Flow:
-    def __init__(self, facts, max_depth=70):
+    def __init__(self, facts, max_depth=600, max_steps=400000):
         self.F = facts
         self.infos = {}
         self.memo = {}
         self.stack = {}  # key -> depth
         self.max_depth = max_depth
+        self.max_steps = max_steps
+        self.depth = 0
+        self.cur = {}
+        self.prev = {}
+        self.inprog = set()
+        self.steps = 0
         self.closure_env = {}  # closure fid -> (creator fid, agg operands)
         self.budget = 0
         self._alias = {}
@@ -262,30 +275,52 @@ class Flow:
         key = (fid, local, path)
         if key in self.memo:
             return self.memo[key]
-        r, cut = self._deps(key)
-        return r
+        # least fixpoint by chaotic iteration: every round evaluates each reachable key at most once, using the
+        # previous round's value wherever a key is met while still in progress (a cycle)
+        prev = {}
+        rounds = 0
+        while True:
+            rounds += 1
+            self.cur = {}
+            self.prev = prev
+            self.inprog = set()
+            self.steps = 0
+            val = self._eval(key, 0)
+            if self.cur == prev or rounds > 40:
+                break
+            prev = self.cur
+        if rounds <= 40 and self.steps < self.max_steps:
+            self.memo.update(self.cur)
+        self.memo[key] = val
+        return val
+
+    def _eval(self, key, depth):
+        if key in self.memo:
+            return self.memo[key]
+        if key in self.cur:
+            return self.cur[key]
+        if key in self.inprog:
+            return self.prev.get(key, frozenset())
+        if depth > self.max_depth or self.steps > self.max_steps:
+            return frozenset([UNKNOWN])
+        self.steps += 1
+        self.inprog.add(key)
+        self.depth = depth
+        try:
+            res, _ = self._compute(key)
+        finally:
+            self.inprog.discard(key)
+        self.cur[key] = res
+        return res
 
     def _deps(self, key):
-        """returns (set, lowest stack depth of a cycle cut reached)"""
-        if key in self.memo:
-            return self.memo[key], 10 ** 9
-        if key in self.stack:
-            return frozenset(), self.stack[key]
-        depth = len(self.stack)
-        if depth > self.max_depth:
-            return frozenset([UNKNOWN]), 10 ** 9
-        self.stack[key] = depth
-        try:
-            res, cut = self._compute(key)
-        finally:
-            del self.stack[key]
-        if cut >= depth:
-            self.memo[key] = res
-            cut = 10 ** 9
-        return res, cut
+        d = self.depth + 1
+        r = self._eval(key, d)
+        self.depth = d - 1
+        return r, 10 ** 9
 
     def _q(self, fid, local, path, acc):
-        """nested query; returns cut depth, adds to acc"""
+        """nested query; adds to acc"""
         path = strip_transparent(tuple(path))
         if len(path) > 10:
             path = path[:10]
@@ -380,13 +415,20 @@ class Flow:
                 fields = rv["fields"]
                 variant = rv["variant"]
                 r = list(rest)
+                if r and r[0] == "#d":
+                    acc.add(("const", "%s::%s" % (rv["id"].split("::")[-1], variant)))
+                    return cut
+                if r and r[0] == "#cmp":
+                    for o in ops:
+                        cut = min(cut, self._q_operand(fid, o, ("#cmp",), acc))
+                    return cut
+                if variant in TRANSPARENT_VARIANTS and len(ops) == 1:
+                    # wrapper erased: path continues into the payload
+                    return self._q_operand(fid, ops[0], tuple(r), acc)
                 if r and r[0].startswith("as:"):
                     if r[0][3:] != variant:
                         return cut
                     r = r[1:]
-                if variant in TRANSPARENT_VARIANTS and len(ops) == 1:
-                    # wrapper erased: path continues into the payload
-                    return self._q_operand(fid, ops[0], tuple(r), acc)
                 if r:
                     if r[0] in fields:
                         i = fields.index(r[0])
@@ -403,6 +445,10 @@ class Flow:
                 return cut
             if ak in ("tuple", "array", "closure"):
                 r = list(rest)
+                if r and r[0] in ("#cmp", "#d"):
+                    for o in ops:
+                        cut = min(cut, self._q_operand(fid, o, (r[0],), acc))
+                    return cut
                 if r:
                     e = r[0]
                     idx = None
@@ -426,25 +472,26 @@ class Flow:
             return cut
         if k == "bin":
             acc.add(("via", "op:" + rv["op"]))
-            cut = min(cut, self._q_operand(fid, rv["l"], (), acc))
-            cut = min(cut, self._q_operand(fid, rv["r"], (), acc))
+            mk = ("#cmp",) if (rv["op"] in ("Eq", "Ne", "Lt", "Le", "Gt", "Ge", "Cmp") or "#cmp" in rest) else ()
+            cut = min(cut, self._q_operand(fid, rv["l"], mk, acc))
+            cut = min(cut, self._q_operand(fid, rv["r"], mk, acc))
             return cut
         if k == "un":
             if rv["op"] not in ("PtrMetadata",):
                 acc.add(("via", "op:" + rv["op"]))
             else:
                 acc.add(("via", "len"))
-            return self._q_operand(fid, rv["o"], (), acc)
+            return self._q_operand(fid, rv["o"], ("#cmp",) if "#cmp" in rest else (), acc)
         if k == "cast":
             ck = rv["ck"]
             if ck.startswith("IntToInt") or ck.startswith("FloatToInt") or ck.startswith("IntToFloat") or ck.startswith("FloatToFloat"):
                 acc.add(("via", "cast:%s->%s" % (rv["from"]["s"], rv["to"]["s"])))
-                return self._q_operand(fid, rv["o"], (), acc)
+                return self._q_operand(fid, rv["o"], ("#cmp",) if "#cmp" in rest else (), acc)
             return self._q_operand(fid, rv["o"], rest, acc)
         if k == "discr":
             acc.add(("via", "discr"))
             p = rv["p"]
-            return self._q(fid, p["l"], path_of(p), acc)
+            return self._q(fid, p["l"], path_of(p) + ("#d",), acc)
         if k == "repeat":
             r = list(rest)
             if r and r[0].startswith("["):
@@ -487,11 +534,18 @@ class Flow:
             return cut
         name = c.get("rname") or c.get("fname") or ""
         tgt = r or d
+        marker = ("#cmp",) if "#cmp" in rest else ()
+        # predicates: the result says something about the operands as wholes, it carries none of their fields
+        if COMPARE.search(name) and not (tgt in self.F.fns and not self.F.fns[tgt].derived):
+            acc.add(("via", short(name)))
+            for a in args:
+                cut = min(cut, self._q_operand(fid, a, ("#cmp",), acc))
+            return cut
         # closure call: `<closure as Fn*>::call*(clo, (args,))`
         if tgt in self.F.fns:
             return self._apply_summary(fid, tgt, args, 0, rest, acc, name)
         # unresolved trait method with workspace impls: union over impls
-        impls = [g.id for g in self.F.fns.values() if g.trait_item == d] if r is None else []
+        impls = [g.id for g in self.F.fns.values() if g.trait_item == d] if (r is None and is_workspace_id(d)) else []
         if impls:
             for g in impls:
                 cut = min(cut, self._apply_summary(fid, g, args, 0, rest, acc, name))
@@ -530,7 +584,7 @@ class Flow:
         # default: result depends on every argument (whole)
         acc.add(("via", short(name)))
         for a in args:
-            cut = min(cut, self._q_operand(fid, a, (), acc))
+            cut = min(cut, self._q_operand(fid, a, marker, acc))
         return cut
 
     def _subst(self, fid, srcs, args, acc, env=None, env_fid=None):
@@ -559,6 +613,8 @@ class Flow:
         cut = self._q(clo, 0, rest, inner)
         f = self.F.fns[clo]
         is_closure = f.kind == "Closure"
+        if not is_closure:
+            acc.add(("via", short(f.name)))
         for s in inner:
             if s[0] != "param":
                 acc.add(s)
@@ -597,7 +653,7 @@ class Flow:
         targets = []
         if tgt in self.F.fns:
             targets = [tgt]
-        elif c and r is None:
+        elif c and r is None and is_workspace_id(d):
             targets = [g.id for g in self.F.fns.values() if g.trait_item == d]
         if targets:
             for g in targets:
@@ -624,6 +680,13 @@ class Flow:
                 r2 = r2[1:]
             cut = min(cut, self._q_operand(fid, a, tuple(r2), acc))
         return cut
+
+
+WORKSPACE_CRATES = ("gds21::", "lef21::", "layout21raw::", "layout21tetris::", "layout21utils::", "layout21converters::", "layout21protos::", "layout21::")
+
+
+def is_workspace_id(i):
+    return bool(i) and i.startswith(WORKSPACE_CRATES)
 
 
 def short(name):
